@@ -16,8 +16,9 @@ MANIFEST = dict(
          'serve_client/handle_request are regenerated from managers.py on every run and proved to compute the '
          'model; exposed sets come from the real Server.create. Correspondence: real Server in-process with scripted '
          'connections, real proxies against the real server threads, (thorough) real manager and client processes. '
-         'Two parts of the statement are REFUTED on the pinned tree (Iterator proxies; results of proxy-returning '
-         'methods through a proxy passed to another process are leaked) and reported as alarms.',
+         'One part of the statement is REFUTED on the pinned tree (results of proxy-returning methods called '
+         'through a proxy passed to another process are leaked) and reported as an alarm; the Iterator-proxy '
+         'defect found earlier is repaired in /repo and now proved positively.',
     note='Trusted: Coq kernel; translate/kernels/manager.py (shallow translation of the refcount statements, '
          'statement-text -> primitive table for the skeletons, registry probe by importing the working tree); '
          'the meaning given to the 33 primitives in Model/Manager.v; harness/mgr_driver.py (fake connection, ident '
@@ -42,7 +43,8 @@ METH = {'append': 'M_append', 'extend': 'M_extend', 'insert': 'M_insert', 'pop':
         '__delitem__': 'M_delitem', '__len__': 'M_len', '__contains__': 'M_contains', 'get': 'M_get',
         'setdefault': 'M_setdefault', 'clear': 'M_clear', 'keys': 'M_keys', 'values': 'M_values',
         'items': 'M_items', 'popitem': 'M_popitem', 'update': 'M_update', 'copy': 'M_copy',
-        'has_key': 'M_has_key', 'set': 'M_set', '__next__': 'M_next', 'clone': 'M_clone', 'me': 'M_me',
+        'has_key': 'M_has_key', 'set': 'M_set', '__next__': 'M_next', 'send': 'M_send', 'clone': 'M_clone',
+        'me': 'M_me',
         '__str__': 'M_str', '__repr__': 'M_repr', '#GETVALUE': 'M_getvalue', '__iter__': 'M_iter',
         'bogus': 'M_bogus', '__init__': 'M_init'}
 HS = {'ok': ('None', 'None'), 'bad_digest': ('(Some E_Auth)', 'None'), 'wrong_key': ('(Some E_Auth)', 'None'),
@@ -165,7 +167,7 @@ LIST_M = ['append', 'extend', 'insert', 'pop', 'remove', 'index', 'count', 'reve
           '__getitem__', '__setitem__', '__delitem__', '__len__', '__contains__']
 DICT_M = ['__getitem__', '__setitem__', '__delitem__', '__len__', '__contains__', 'get', 'pop',
           'setdefault', 'clear', 'keys', 'values', 'items', 'popitem', 'update', 'copy', 'has_key']
-OTHER_M = ['get', 'set', '__next__', 'clone', 'me', '__str__', '__repr__', '#GETVALUE', '__iter__',
+OTHER_M = ['get', 'set', '__next__', 'send', 'clone', 'me', '__str__', '__repr__', '#GETVALUE', '__iter__',
            'bogus', '__init__']
 
 
@@ -235,7 +237,7 @@ def gen_call(rng, kinds):
     r = rng.random()
     if r < 0.72:
         pool = {'list': LIST_M, 'Shelf': LIST_M + ['clone', 'me', 'clone'], 'ShelfRef': LIST_M,
-                'dict': DICT_M, 'Value': ['get', 'set'], 'Iterator': ['__next__']}[kind]
+                'dict': DICT_M, 'Value': ['get', 'set'], 'Iterator': ['__next__', '__next__', '__next__', 'send']}[kind]
         meth = rng.choice(pool)
     elif r < 0.9:
         meth = rng.choice(LIST_M + DICT_M)
@@ -340,9 +342,27 @@ BOUNDARY_SERVER = [
                                    ['call', 2, 'get', [['z', 1]], 0], ['call', 2, '__str__', [], 0],
                                    ['call', 1, 'clear', [], 0], ['call', 1, 'popitem', [], 0]]], hsf=0)],
 ]
-# the Iterator typeid (registered for PoolProxy.imap): __next__ through the proxy
+# the Iterator typeid (registered for PoolProxy.imap): __next__ through the proxy, to exhaustion
 ITER_CASE = [dict(hs='ok', req=['create', 'Iterator', [['l', [4, 5]]]], hsf=0),
-             dict(hs='ok', req=['accept', [['call', 1, '__next__', [], 0]]], hsf=0)]
+             dict(hs='ok', req=['accept', [['call', 1, '__next__', [], 0], ['call', 1, '__next__', [], 0],
+                                           ['call', 1, '__next__', [], 0], ['call', 1, 'send', [['z', 1]], 0],
+                                           ['call', 1, '__next__', [['z', 1]], 0]]], hsf=0)]
+
+
+def iterator_typo(case, outs):
+    """did the real server answer __next__ on an Iterator referent with the fallback KeyError
+    (the `_exposed` typo of IteratorProxy, repaired in /repo by 8d304c0)"""
+    snap = []
+    for cn, o in zip(case, outs):
+        if cn['req'][0] == 'accept' and cn['hs'] == 'ok' and not cn.get('hsf'):
+            iters = {e[0] for e in snap if e[2][0] == 'I'}
+            for c, r in zip(cn['req'][1], o['outs'][1:]):
+                if c[0] != 'call' or c[4]:
+                    break
+                if c[2] == '__next__' and c[1] in iters and r == ['tb', 'E_Key']:
+                    return True
+        snap = o['snap']
+    return False
 
 
 def correspond_server(res, n):
@@ -381,10 +401,16 @@ def correspond_server(res, n):
                      'scripted send failures); non-trivial = at least 3 answered requests; distinct by canonical JSON',
                 server_histogram=hist, server_requests_answered=executed)
     late = []
+    typo = []
     for i, code in codes:
         c, o = cases[i], outs[i]
         rp = dict(mode='server', case=c, impl=o)
-        if code == 2:
+        if code == 2 and iterator_typo(c, o):
+            typo.append(dict(signature='C20:iterator-proxy-next-not-exposed',
+                             what='__next__ on an Iterator referent (typeid registered for PoolProxy.imap) is '
+                                  'answered with #TRACEBACK KeyError instead of the next item: IteratorProxy does '
+                                  'not provide `_exposed_` (regression of the fix in /repo)', replay=rp))
+        elif code == 2:
             res.alarms.append(dict(signature='C20:server-differs-from-model',
                                    what='real Server (replies / request-read flag / exit code / object table and '
                                         'refcounts) differs from the proved model on %s' % json.dumps(c)[:600],
@@ -402,6 +428,9 @@ def correspond_server(res, n):
         else:
             res.broken.append(dict(kind='correspondence', name='Manager.check_case code %d' % code,
                                    detail=json.dumps(rp)[:1500]))
+    if typo:       # the repaired defect is back: report it before the generic differences it causes
+        typo.sort(key=lambda a: len(json.dumps(a['replay']['case'])))
+        res.alarms.insert(0, typo[0])
     return late
 
 
